@@ -36,6 +36,15 @@ C["C03"]=reasm("C03")
 C["C03"]["jobs"]+= [job("pin-ffffffff",".","VH_Reassembler",["C03/"],{"k":3,"maxInFlight":2,"pin":1},Q,bounds="k=3, first pushed sequence pinned to 0xFFFFFFFF"),
                     job("pin-zero",".","VH_Reassembler",["C03/"],{"k":3,"maxInFlight":2,"pin":2},Q,bounds="k=3, second pushed sequence pinned to 0")]
 C["C10"]=reasm("C10")
+C["C10"]["jobs"]+=[job("api-k3-maxduration",".","VH_Reassembler",["C10/"],{"k":3,"maxInFlight":2,"timeout_mode":6},Q,bounds="k=3 then Close; timeout = the largest time.Duration: nothing leaves the buffer for time"),
+   job("api-k3-250years",".","VH_Reassembler",["C10/"],{"k":3,"maxInFlight":2,"timeout_mode":7},Q,bounds="k=3 then Close; timeout = 250 years"),
+   job("clock-k3-2s",".","VH_Reassembler",["C10/"],{"k":3,"maxInFlight":2,"timeout_mode":4,"forcepush":2,"plain":1},Q,clock="sym",bounds="two pushes of SYSCALL records then one free operation, 2s timeout, every time.Now() reading symbolic: an incomplete event in a non-full buffer leaves only once its timeout has elapsed; size bound and head rule as before"),
+   job("clock-k3-5ms-anytype",".","VH_Reassembler",["C10/"],{"k":3,"maxInFlight":1,"timeout_mode":3},T,clock="sym",bounds="k=3 free operations, record types symbolic, 5ms timeout, maxInFlight=1, symbolic clock")]
+C["C10"]["assumptions"]=C["C10"]["assumptions"]+["clock jobs: each time.Now() returns an arbitrary non-decreasing instant"]
+for P_ in ("C01","C03"):
+    C[P_]["jobs"]+=[job("clock-k3-2s",".","VH_Reassembler",[P_+"/"],{"k":3,"maxInFlight":2,"timeout_mode":4,"forcepush":2,"plain":1},Q,clock="sym",bounds="two pushes of SYSCALL records then one free operation, 2s timeout, symbolic clock: events may leave the buffer by expiry between the calls"),
+      job("clock-k3-5ms-anytype",".","VH_Reassembler",[P_+"/"],{"k":3,"maxInFlight":1,"timeout_mode":3},T,clock="sym",bounds="k=3 free operations, record types symbolic, 5ms timeout, maxInFlight=1, symbolic clock")]
+    C[P_]["assumptions"]=C[P_]["assumptions"]+["clock jobs: each time.Now() returns an arbitrary non-decreasing instant"]
 c19=[job("nil-stream",".","VH_ReassemblerNilStream",["C19/"],bounds="symbolic maxInFlight (8 bit) and timeout (64 bit)"),
      job("api-k3-inf",".","VH_Reassembler",["C19/"],{"k":3,"maxInFlight":2},Q,bounds="k=3 then Close, post-Close Maintain/Close; infinite timeout")]
 c19.append(job("api-k2-postclose2",".","VH_Reassembler",["C19/"],{"k":2,"maxInFlight":2,"postclose":2},Q,bounds="k=2 then Close, then 2 more pushes (symbolic), then Maintain and Close: both fail and deliver nothing, whatever the late pushes left buffered"))
